@@ -1178,4 +1178,95 @@ Proof.
   change (read_file (view O ar []) en d1) with (read_file (view O ar aw) en d1). rewrite Hr. split; [reflexivity|exact Hfr].
 Qed.
 
+Notation reads := (reads Data).
+
+(* ------------------------------------------------------------------ reading keeps the disk; overwriting forgets *)
+(* an operation that only reads hands back the WHOLE disk as it was: no path gone, none new, no content changed *)
+Theorem reading_keeps_disk_thm (o : op Data) (d d' : disk) ob :
+  reads o = true -> step o d = Good (d', ob) -> d' = d.
+Proof.
+  destruct o as [F s e fl x|F p x|F en|F t|F sl|F sl|F G cp cv sl|F dry sl]; cbn [C11_fsops.reads C11_fsops.step];
+    intro Hr; try discriminate.
+  - destruct (read_file F en d); cbn [rbind]; [|discriminate]. intro H. injection H as <- _. reflexivity.
+  - destruct (render (tpl F) t t []) as [p|]; [|intro H; injection H as <- _; reflexivity].
+    destruct (dlook p d); [|intro H; injection H as <- _; reflexivity].
+    destruct (entry_of F p) as [|en ?]; [intro H; injection H as <- _; reflexivity|].
+    destruct (read_file F en d); cbn [rbind]; [|discriminate]. intro H. injection H as <- _. reflexivity.
+  - destruct (find F sl d) as [es|]; cbn [rbind]; [|discriminate].
+    destruct (mapM _ es); cbn [rbind]; [|discriminate]. intro H. injection H as <- _. reflexivity.
+  - destruct (find F sl d) as [es|]; cbn [rbind]; [|discriminate]. intro H. injection H as <- _. reflexivity.
+  - subst dry. unfold C11_fsops.delete. destruct (find F sl d) as [es|]; cbn [rbind]; [|discriminate].
+    intro H. injection H as <- _. reflexivity.
+Qed.
+
+(* lifted to histories: after any sequence of reading operations the disk is the one it started from *)
+Theorem read_history_keeps_disk_thm (ops : list (op Data)) (d d' : disk) :
+  forallb reads ops = true -> run ops d = Good d' -> d' = d.
+Proof.
+  revert d. induction ops as [|o ops IH]; intros d Hall; cbn [C11_fsops.run].
+  - intro H. injection H as <-. reflexivity.
+  - cbn [forallb] in Hall. apply andb_true_iff in Hall. destruct Hall as [Ho Hall].
+    destruct (step o d) as [[d1 ob]|] eqn:Es; cbn [rbind fst]; [|discriminate].
+    apply (reading_keeps_disk_thm o d d1 ob Ho) in Es. subst d1. apply IH. exact Hall.
+Qed.
+
+(* what a read returns depends on the content under the file's OWN path only *)
+Lemma read_file_local (F : fset) en (d1 d2 : disk) :
+  dlook (e_path en) d1 = dlook (e_path en) d2 -> read_file F en d1 = read_file F en d2.
+Proof. unfold C11_fsops.read_file. intros ->. reflexivity. Qed.
+
+(* collect / icollect / fileset[s:e]: every element is what read() of that file ALONE returns -- on the disk as it is and on
+   every disk that has the same content under that one path, whatever the other selected files are called and whatever
+   else the tree (the temporary directory included) holds *)
+Theorem collect_reads_each_file_alone_thm (F : fset) sl (d d' : disk) l :
+  step (OCollect F sl) d = Good (d', VList l) ->
+  d' = d /\ exists es, find F sl d = Good es /\
+  Forall2 (fun en py => fst py = e_path en /\
+                        forall d2 : disk, dlook (e_path en) d2 = dlook (e_path en) d ->
+                                          step (ORead F en) d2 = Good (d2, VData (snd py))) es l.
+Proof.
+  cbn [C11_fsops.step]. destruct (find F sl d) as [es|] eqn:Ef; [|discriminate]. cbn [rbind].
+  destruct (mapM _ es) as [l0|] eqn:Em; [|discriminate]. cbn [rbind]. intro H. injection H as <- <-.
+  split; [reflexivity|]. exists es. split; [reflexivity|].
+  apply mapM_forall2 in Em. revert Em. apply Forall2_impl_in. intros en py _ _ H.
+  destruct (read_file F en d) as [x|] eqn:Er; cbn [rbind] in H; [|discriminate]. injection H as <-.
+  split; [reflexivity|]. intros d2 E. cbn [snd]. rewrite (read_file_local F en d2 d E), Er. reflexivity.
+Qed.
+
+(* writing a path twice = writing it once, with the LAST content: whole-disk equality *)
+Transparent dstore dremove.
+Lemma dremove_idem p (d : disk) : dremove p (dremove p d) = dremove p d.
+Proof.
+  unfold dremove. induction d as [|[k v] d IH]; [reflexivity|]. cbn [filter fst].
+  destruct (negb (str_eqb k p)) eqn:E; cbn [filter fst]; [rewrite E, IH|rewrite IH]; reflexivity.
+Qed.
+Lemma dstore_dstore p b c (d : disk) : dstore p c (dstore p b d) = dstore p c d.
+Proof.
+  unfold dstore at 1 3. f_equal. unfold dstore, dremove at 1. cbn [filter fst]. rewrite str_eqb_refl. cbn [negb].
+  apply dremove_idem.
+Qed.
+
+Opaque dstore dremove.
+
+(* overwrite: a file written over an existing one -- by this fileset or by any other, with any handler, write
+   arguments and compression -- leaves the disk that the LAST write alone produces: nothing of the earlier content survives *)
+Theorem overwrite_forgets_thm (F G : fset) x y p (d d1 d2 : disk) :
+  write_file F x p d = Good d1 -> write_file G y p d1 = Good d2 -> write_file G y p d = Good d2.
+Proof.
+  unfold C11_fsops.write_file. destruct (C11_fsops.encode Data Bytes enc pack F x p) as [b|]; [|discriminate].
+  intro H. injection H as <-. destruct (C11_fsops.encode Data Bytes enc pack G y p) as [c|]; [|discriminate].
+  intro H. injection H as <-. rewrite dstore_dstore. reflexivity.
+Qed.
+
+(* overwrite, then read: what comes back is the object written LAST; the disk is the one the last write alone produces *)
+Theorem overwrite_reads_last_thm (F G : fset) x y en (d d1 d2 : disk) :
+  codec_ok -> rargs G = wargs G -> zc G = zd G ->
+  write_file F x (e_path en) d = Good d1 -> write_file G y (e_path en) d1 = Good d2 ->
+  read_file G en d2 = Good (post G en y) /\ write_file G y (e_path en) d = Good d2 /\
+  (forall r, r <> e_path en -> dlook r d2 = dlook r d).
+Proof.
+  intros Hc Hr Hz H1 H2. pose proof (overwrite_forgets_thm F G x y (e_path en) d d1 d2 H1 H2) as H3.
+  destruct (write_read_thm G y en d d2 Hc Hr Hz H3) as [A B]. split; [exact A|]. split; [exact H3|exact B].
+Qed.
+
 End Proofs.
